@@ -1,6 +1,7 @@
 //! Correspondence harness (native engines). Runs the real sycamore code on generated cases and
 //! writes, per engine, the request lines for the Lean driver, the implementation's canonical
 //! observations and the verdicts of the implementation-side oracles.
+mod assr;
 mod asyncx;
 mod isdyn;
 mod listmap;
@@ -48,6 +49,7 @@ fn main() {
     }
     // Panics are captured per case; keep stderr quiet.
     std::panic::set_hook(Box::new(|info| {
+        if std::env::var("VERIF_TRACE_PANICS").is_ok() { eprintln!("PANIC: {info}"); }
         // panics inside executor tasks are swallowed by tokio: remember them for the async engine
         if asyncx::ACTIVE.with(|a| a.get()) {
             asyncx::PANIC_LOG.with(|p| p.borrow_mut().push(info.to_string().replace('\n', " ")));
@@ -64,6 +66,7 @@ fn main() {
         "reactive" => reactive::run(&args),
         "ssr" => ssr::run(&args),
         "async" => asyncx::run(&args),
+        "assr" => assr::run(&args),
         "hydrategen" => hydrategen::run(&args),
         e => {
             eprintln!("unknown engine {e}");
